@@ -1231,7 +1231,78 @@ Proof.
   unfold finish. rewrite B1, E1, S1, R1. reflexivity.
 Qed.
 
+(* ---- hash comments before top-level commands (the form FiltersSet.tosieve writes: "# Filter: name") *)
+
+Definition ctoks (cms : list bytes) : list token := map (mk THashComment) cms.
+
+Definition toks_top (x : list bytes * gcmd) : list token := ctoks (fst x) ++ toks_cmd (snd x).
+
+Lemma with_hash_id : forall st, with_hash (p_hash st) st = st.
+Proof. intros []; reflexivity. Qed.
+
+Lemma steps_comments : forall T cms st,
+  steps T st (ctoks cms) = Some (with_hash (p_hash st ++ map strip_ws cms) st).
+Proof.
+  intros T. induction cms as [|c r IH]; intro st; cbn [ctoks map steps].
+  - rewrite app_nil_r, with_hash_id. reflexivity.
+  - unfold process, mk. cbn [t_kind t_val]. fold (ctoks r). rewrite IH. pcbn. rewrite <- app_assoc. reflexivity.
+Qed.
+
+(* commented scripts: every top-level command may be preceded by hash comments; they end up, stripped, in the
+   comments of that command's node *)
+Inductive wf_tops (T : tables) : list bytes -> option bytes -> list (list bytes * gcmd) -> list node -> list bytes -> Prop :=
+| wt_nil : forall L prev, wf_tops T L prev [] [] L
+| wt_cons : forall L prev cms c n L1 rest ns L2,
+    wf_cmd T L prev c n L1 -> wf_tops T L1 (Some (d_name (node_def n))) rest ns L2 ->
+    wf_tops T L prev ((cms, c) :: rest) (with_comments n (map strip_ws cms) :: ns) L2.
+
+Theorem commented_script_complete : forall T tops ns L L' prev st,
+  twf_tables T = true -> wf_tops T L prev tops ns L' ->
+  p_cstate st = CNone -> p_expected st = None -> p_stack st = [] -> p_hash st = [] -> p_loaded st = L ->
+  prev_name (place_of st) = prev ->
+  exists st', steps T st (flat_map toks_top tops) = Some st' /\
+              p_cstate st' = CNone /\ p_stack st' = [] /\ p_expected st' = None /\ p_brackets st' = p_brackets st /\
+              p_hash st' = [] /\ p_result st' = p_result st ++ ns /\ p_loaded st' = L'.
+Proof.
+  intros T tops ns L L' prev st HT H. revert st.
+  induction H as [L prev|L prev cms c n L1 rest ns L2 Hc Hr IH]; intros st Hcs He Hs Hh Hl Hp.
+  - exists st. cbn [flat_map steps]. rewrite app_nil_r. auto 10.
+  - cbn [flat_map]. unfold toks_top at 1. cbn [fst snd]. rewrite <- app_assoc, steps_app, steps_comments.
+    set (st0 := with_hash (p_hash st ++ map strip_ws cms) st).
+    assert (Hwf1 : wf_cmds T L prev [c] [n] L1) by (eapply wf_cons; [exact Hc|apply wf_nil]).
+    destruct (run_cmds T HT L prev [c] [n] L1 Hwf1 st0) as (st1 & P1 & C1 & E1 & Ld1 & B1 & PL1).
+    + unfold ready, st0. pcbn. rewrite Hs. split; [exact Hcs|]. split; [exact He|exact I].
+    + unfold st0. pcbn. exact Hl.
+    + unfold place_of, st0 in *. pcbn. rewrite Hs in *. exact Hp.
+    + cbn [flat_map] in P1. rewrite app_nil_r in P1. rewrite steps_app, P1.
+      unfold place_of, st0 in PL1. pcbn_in PL1. rewrite Hs, Hh in PL1. cbn [fold_left emit1 app] in PL1.
+      injection PL1 as S1 H1 R1.
+      destruct (IH st1 C1 E1 S1 H1 Ld1) as (st2 & P2 & C2 & S2 & E2 & B2 & H2 & R2 & L2').
+      { unfold place_of. rewrite S1, R1. cbn [prev_name]. rewrite last_opt_snoc. destruct n; reflexivity. }
+      exists st2. split; [exact P2|]. split; [exact C2|]. split; [exact S2|]. split; [exact E2|].
+      split; [rewrite B2, B1; unfold st0; pcbn; reflexivity|]. split; [exact H2|]. split; [|exact L2'].
+      rewrite R2, R1. unfold st0. pcbn. rewrite <- app_assoc. reflexivity.
+Qed.
+
+(* a text that lexes to the tokens of a commented script parses to its tree, comments attached *)
+Theorem parse_commented_script : forall T text tops ns L',
+  twf_tables T = true ->
+  snd (lex text) = None ->
+  map strip_pos (fst (lex text)) = flat_map toks_top tops ->
+  wf_tops T [] None tops ns L' ->
+  parse T text = Accept ns.
+Proof.
+  intros T text tops ns L' HT Herr Htoks H.
+  destruct (commented_script_complete T tops ns [] L' None p_init HT H eq_refl eq_refl eq_refl eq_refl eq_refl eq_refl)
+    as (st' & Hs & C1 & S1 & E1 & B1 & H1 & R1 & _).
+  rewrite parse_run_tokens, Herr. rewrite <- Htoks in Hs.
+  destruct (steps_run_tokens T (fst (lex text)) p_init _ (2 * length text + 2) (length text) 0 Hs) as (ll & ->).
+  { pose proof (token_count text). lia. }
+  unfold finish. rewrite B1, E1, S1, R1. reflexivity.
+Qed.
+
 Print Assumptions run_args_gen.
 Print Assumptions run_test.
 Print Assumptions run_cmds.
 Print Assumptions parse_script.
+Print Assumptions parse_commented_script.
